@@ -955,6 +955,7 @@ static void scenario(int codec, long param, size_t n, const char *shape,
     free(x32);
 }
 
+#ifndef DRV_CODECS_NO_MAIN
 int main(int argc, char **argv) {
     if (argc < 6) {
         fprintf(stderr, "usage: %s scenarios shard nshards what out\n", argv[0]);
@@ -1002,3 +1003,4 @@ int main(int argc, char **argv) {
     tr_close();
     return 0;
 }
+#endif
